@@ -33,6 +33,7 @@ def anc_spec(ex, E, Z):
 
 # ---------------------------------------------------------------------------------------------------
 class GetAncestorsOf(Contract):
+    pure = True   # does not modify any pre-existing object
     file = "pgmpy/base/DAG.py"
     qual = "DAG._get_ancestors_of"
 
@@ -158,6 +159,7 @@ def atn_fn(ex, E):
 
 
 class ActiveTrailNodes(Contract):
+    pure = True   # does not modify any pre-existing object
     file = "pgmpy/base/DAG.py"
     qual = "DAG.active_trail_nodes"
 
@@ -297,6 +299,7 @@ register(ActiveTrailNodes())
 
 # --------------------------------------------------------------------------------------------------- graph views
 class GetMarkovBlanket(Contract):
+    pure = True   # does not modify any pre-existing object
     file = "pgmpy/base/DAG.py"
     qual = "DAG.get_markov_blanket"
 
@@ -320,6 +323,7 @@ class GetMarkovBlanket(Contract):
 
 
 class BNGetMarkovBlanket(GetMarkovBlanket):
+    pure = True   # does not modify any pre-existing object
     file = "pgmpy/models/BayesianNetwork.py"
     qual = "BayesianNetwork.get_markov_blanket"
 
@@ -328,6 +332,7 @@ class BNGetMarkovBlanket(GetMarkovBlanket):
 
 
 class Moralize(Contract):
+    pure = True   # does not modify any pre-existing object
     file = "pgmpy/base/DAG.py"
     qual = "DAG.moralize"
 
@@ -371,6 +376,7 @@ class Moralize(Contract):
 
 
 class IsDConnected(Contract):
+    pure = True   # does not modify any pre-existing object
     file = "pgmpy/base/DAG.py"
     qual = "DAG.is_dconnected"
 
@@ -403,6 +409,7 @@ class IsDConnected(Contract):
 
 
 class GetAncestralGraph(Contract):
+    pure = True   # does not modify any pre-existing object
     file = "pgmpy/base/DAG.py"
     qual = "DAG.get_ancestral_graph"
 
@@ -441,6 +448,7 @@ for _c in (GetMarkovBlanket(), BNGetMarkovBlanket(), Moralize(), IsDConnected(),
 
 
 class LocalIndependencies(Contract):
+    pure = True   # does not modify any pre-existing object
     """local Markov property: for every requested v:  v _|_ (non-descendants - parents) | parents, asserted exactly when that set
     is non-empty; nothing else is asserted (a single name or a list / tuple of names)"""
     file = "pgmpy/base/DAG.py"
@@ -510,6 +518,7 @@ register(LocalIndependencies())
 
 
 class MinimalDSeparator(Contract):
+    pure = True   # does not modify any pre-existing object
     """partial contract (the Tian-Paz-Pearl minimality / existence theorem is bounded only): adjacent endpoints are
     rejected; a returned set contains no latent node, neither endpoint, and d-separates the endpoints in the
     ancestral graph of {start, end} (which is what the function tests)."""
@@ -601,6 +610,7 @@ register(MinimalDSeparator())
 
 # --------------------------------------------------------------------------------------------------- get_independencies
 class GetIndependencies(Contract):
+    pure = True   # does not modify any pre-existing object
     """DAG.get_independencies(latex=False): with  N' = nodes (minus latents unless include_latents), rest(s) = N' - {s} and
     ATN(s, O) = the answer of active_trail_nodes(s, observed=O) (its contract: exactly the d-connected nodes),
     the result lists exactly the assertions   s _|_ rest(s) - O - ATN(s, O) | O   for s in N', O a proper subset of rest(s),
